@@ -378,6 +378,10 @@ func (w *World) place(e *Entry) error {
 		}
 		return os.WriteFile(filepath.Join(p, "inner.pb.go"), []byte(outOfScope), 0o644)
 	case KSymlink:
+		if strings.HasPrefix(e.Raw, "file:") && len(e.Raw) > 5 {
+			// a second name for a Go file of the same directory (relative link)
+			return os.Symlink(e.Raw[5:], p)
+		}
 		if e.Raw == "dir" {
 			// a symbolic link named like a Go file that points to a directory (outside the simulated one)
 			return os.Symlink(filepath.Join(w.root, "other"), p)
@@ -440,6 +444,19 @@ func (s snap) names() []string {
 
 // scope returns the names (relative to d) the invocation hands to the tool's per-file routine.
 func (w *World) scope(ev *Event) []string {
+	l := w.scopeNames(ev)
+	// a name in scope that is a symbolic link to a file of the directory brings that file into scope: the tool reads and writes through the link
+	for _, n := range l {
+		if t, err := os.Readlink(w.path(n)); err == nil && !strings.Contains(t, "/") {
+			if st, err := os.Stat(w.path(t)); err == nil && st.Mode().IsRegular() {
+				l = append(l, t)
+			}
+		}
+	}
+	return l
+}
+
+func (w *World) scopeNames(ev *Event) []string {
 	switch ev.Op {
 	case EvRunF:
 		return []string{ev.Target}
